@@ -185,10 +185,17 @@ def run(ctx):
     # cuSPARSE variant of Solve (CUDA runtime emulated on the host): there is no recovery ladder, so the
     # alphabet is just the outcome of the single CVode call
     d, drv, err = build_harness(ctx.scratch, "cusparse")
+    if drv is None and err and "src/naunet" in err and "driver" not in err.split("src/naunet")[0][-80:]:
+        # the diagnostics name the rendered library, not the harness: a Solve that cannot be compiled integrates nothing
+        ctx.violation("C19:cusparse:generated-solve-does-not-compile", f"cusparse: the rendered naunet.cpp does not compile for the host emulation: {err[:400]}", {"backend": "cusparse", "compile": True})
+        shutil.rmtree(d, ignore_errors=True)
+        d, drv = None, "skip"
     if drv is None:
         raise HarnessError(f"C19 cusparse harness does not compile: {err}")
     compiled.append("cusparse")
     try:
+        if drv == "skip":
+            raise StopIteration
         flags = [-1, -2, -3, -4, -5, -6, -7, -8]
         argv0 = [3, 0, csv(flags), csv([0.0, 0.5]), csv([0, 99]), 0, repr(3.15e7), "-", cap]
         argv, res = run_drv((drv, argv0))
@@ -207,8 +214,11 @@ def run(ctx):
         per_pass["cusparse:single-call"] = {"runs": res["runs"], "success": res["success"], "fail": res["fail"], "capped": res["capped"], "deepest_level": res["deepest_level"]}
         if res["violations"]:
             ctx.violation(f"C19:cusparse:{classify(res['first_violation'])}", f"cusparse: choice sequence {res['choices']}: {res['first_violation']} ({res['violations']} of {res['runs']} executions)", {"backend": "cusparse", "argv": argv0[:8], "choices": res["choices"]})
+    except StopIteration:
+        pass
     finally:
-        shutil.rmtree(d, ignore_errors=True)
+        if d is not None:
+            shutil.rmtree(d, ignore_errors=True)
     # odeint
     od = run_odeint(ctx)
     total += od["runs"]
